@@ -33,7 +33,11 @@ impl FileSystemPackageResolver {
     ) -> Result<IndexMap<BorrowedPackageKey<'a>, Vec<u8>>, Error> {
         let mut packages = IndexMap::new();
         for (key, span) in keys.iter() {
-            let path = match self.overrides.get(key.name) {
+            // `in_place` is true when `path` is the package's own location (an explicit
+            // override or `<root>/<namespace>/<name>[/<version>]`) rather than the `.wasm`
+            // or `.wat` file next to it; only the former may be a WIT package directory.
+            #[cfg_attr(not(feature = "wit"), allow(unused_variables))]
+            let (path, in_place) = match self.overrides.get(key.name) {
                 Some(path) if key.version.is_none() => {
                     if !path.is_file() {
                         return Err(Error::PackageResolutionFailure {
@@ -47,7 +51,7 @@ impl FileSystemPackageResolver {
                         });
                     }
 
-                    path.clone()
+                    (path.clone(), true)
                 }
                 _ => {
                     let mut path = self.root.clone();
@@ -60,19 +64,20 @@ impl FileSystemPackageResolver {
                     }
 
                     // If the path is not a directory, use a `.wasm` or `.wat` extension
-                    if !path.is_dir() {
+                    let in_place = path.is_dir();
+                    if !in_place {
                         append_extension(&mut path, "wasm");
 
                         #[cfg(feature = "wat")]
                         {
                             path.set_extension("wat");
-                            if !path.exists() {
+                            if !path.is_file() {
                                 path.set_extension("wasm");
                             }
                         }
                     }
 
-                    path
+                    (path, in_place)
                 }
             };
 
@@ -86,7 +91,7 @@ impl FileSystemPackageResolver {
                     source: e,
                 };
                 let mut resolve = wit_parser::Resolve::new();
-                let pkg = if path.is_dir() {
+                let pkg = if in_place && path.is_dir() {
                     log::debug!(
                         "loading WIT package from directory `{path}`",
                         path = path.display()
